@@ -68,6 +68,10 @@ class Interpreter:
                     result.asContinue().pos
                 )
             return result
+        except RecursionError:
+            raise CklRuntimeError(
+                ValueString("ERROR"), "Maximum recursion depth exceeded"
+            )
         finally:
             if savedParent:
                 environment_ = environment
